@@ -71,7 +71,10 @@ C19Step(t, ev) ==
           ELSE Rej(m, IF m.call = "terminate" THEN "LEAK: " \o ToString(Cardinality(Outstanding(m))) \o " blocks of the supplied manager still outstanding after XalanTransformer::terminate() (no request was refused): " \o ToString(Outstanding(m))
                       ELSE "PROTOCOL: Shutdown outside terminate")
      [] ev.e = "DiscardManager" ->
-          IF Discard_Enabled(m, ev.reclaimed) THEN Acc(Discard_Do(m))
+          IF "touched" \in DOMAIN ev /\ ev.touched > 0
+          THEN Rej(m, "USE-AFTER-RETURN: " \o ToString(ev.touched) \o " blocks were written to after the library had returned them to the manager (first: block "
+                      \o ToString(ev.firstTouched) \o ")")
+          ELSE IF Discard_Enabled(m, ev.reclaimed) THEN Acc(Discard_Do(m))
           ELSE Rej(m, "PROTOCOL: DiscardManager reclaimed " \o ToString(ev.reclaimed) \o " blocks, the stream leaves " \o ToString(Cardinality(Outstanding(m))) \o " (call " \o m.call \o ", transformer " \o m.tr \o ")")
      [] ev.e = "Probe" ->
           LET good == ev.code = 0 /\ ev.exception = "none" /\ ev.out = ProbeExpected /\ ev.outstanding = 0 IN
